@@ -32,6 +32,21 @@ def kinds():
             evs += ["rx 0 " + nodegen.ccr(n(), n(), "peer1.x"), f"ans 0 {i} 2001"]
         return evs + ["eof 0", "tick"]
 
+    def inbound_req_norc(N):
+        # answers without a Result-Code (3GPP answers carry Experimental-Result only): send_answer raises for a known peer
+        evs = ["start fail", "acc", "rx 0 " + nodegen.cer("peer1.x", "4", n(), n())]
+        for i in range(N):
+            evs += ["rx 0 " + nodegen.ccr(n(), n(), "peer1.x"), f"ans 0 {i} -"]
+        return evs + ["eof 0", "tick"]
+
+    def hard_write_error(N):
+        # a connection whose pending answer hits a hard socket error
+        evs = ["start fail"]
+        for i in range(N):
+            evs += ["acc", f"rx {i} " + nodegen.cer("peer1.x", "4", n(), n()), f"wr {i} hard",
+                    f"rx {i} " + nodegen.dwr(n(), n(), "peer1.x"), "tick"]
+        return evs + ["tick"]
+
     def rejected_req(N):
         evs = ["start fail", "acc", "rx 0 " + nodegen.cer("peer1.x", "4", n(), n())]
         for i in range(N):
@@ -124,7 +139,8 @@ def kinds():
             evs += ["dial ok", "adv 2", f"rx {i + 1} " + nodegen.cea(2001, "peer2.x", n(), n()), f"eof {i + 1}"]
         return evs + ["tick"]
 
-    return {"inbound_req": inbound_req, "rejected_req": rejected_req, "dup_reject": dup_reject, "dwr_in": dwr_in, "dwr_out": dwr_out,
+    return {"inbound_req": inbound_req, "inbound_req_norc": inbound_req_norc, "hard_write_error": hard_write_error,
+            "rejected_req": rejected_req, "dup_reject": dup_reject, "dwr_in": dwr_in, "dwr_out": dwr_out,
             "outbound_req": outbound_req, "conn_ok": conn_ok, "conn_node_closes": conn_node_closes, "conn_unknown": conn_unknown,
             "conn_timeout": conn_timeout, "conn_already": conn_already, "dial_refused": dial_refused,
             "dial_async_fail": dial_async_fail, "dial_rejected": dial_rejected, "dial_established": dial_established}
@@ -137,7 +153,7 @@ def final(lines: list[str]):
 
 
 def run(res: Result, tier: str, seed: int):
-    res.rule = ("15 kinds of completed transaction / connection attempt, each repeated N times (N = 1, 10 quick; 1, 10, 100 thorough; "
+    res.rule = ("17 kinds of completed transaction / connection attempt, each repeated N times (N = 1, 10 quick; 1, 10, 100 thorough; "
                 "a 1000-run for inbound requests in thorough) on one node, ending with every request answered and every "
                 "connection ended; oracle: every table size, the open-socket count and the live-worker count at the end are the "
                 "same for every N (apart from the fixed-size retransmission window); real vs model on SIZE/RES")
